@@ -192,16 +192,19 @@ class PoolWorldB(object):
                 socks[fd] = client
                 if cfg['pool_size'] and len(net.open) > cfg['pool_size']:
                     self.viol.append(('pool-size-exceeded', '%d open connections, pool_size %r' % (len(net.open), cfg['pool_size'])))
-                p = ScriptedPeer(server, {}, pipelining=True)
+                p = ScriptedPeer(server, {}, pipelining=True, lmtp=bool(cfg.get('lmtp')))
                 peers.append(p)
                 if cfg.get('faults'):
                     orig_reply = p._reply
 
                     def faulty(stage, base, text, multi=None, p=p, orig_reply=orig_reply):
+                        txn = max(0, len(p.transactions) - 1)
                         if stage == 'mail':
-                            f = ch.choose(3, 'mail-reply', 'data')
+                            f = ch.choose(4, 'mail-reply', 'data')
                             if f:
-                                p.script['mail@%d' % (len(p.transactions) - 1)] = '4' if f == 1 else '5'
+                                p.script['mail@%d' % txn] = {1: '4', 2: '5', 3: 'disconnect'}[f]
+                        if stage == 'rset' and ch.choose(2, 'rset-reply-late', 'data') == 1:
+                            p.script['rset@%d' % txn] = ('delay', 12.0)          # later than the command timeout (11 s)
                         if stage == 'mail' and cfg.get('delays'):
                             if ch.choose(2, 'delay-mail-reply', 'sched') == 1:
                                 w.env_wait('peer%d-replies' % peers.index(p))
@@ -211,7 +214,10 @@ class PoolWorldB(object):
                         p.after_transaction = lambda p: ch.choose(2, 'unsolicited-421', 'data') == 1
                 gevent.spawn(p.run)
                 return client
-            relay = StaticSmtpRelay('mx.test', 25, pool_size=cfg['pool_size'], socket_creator=creator, ehlo_as='relay.test',
+            relay_cls = StaticSmtpRelay
+            if cfg.get('lmtp'):
+                from slimta.relay.smtp.static import StaticLmtpRelay as relay_cls
+            relay = relay_cls('mx.test', 25, pool_size=cfg['pool_size'], socket_creator=creator, ehlo_as='relay.test',
                                     idle_timeout=cfg.get('idle_timeout'), context=VContext(), connect_timeout=7.0,
                                     command_timeout=11.0, data_timeout=13.0)
             callers = []
@@ -263,6 +269,17 @@ class PoolWorldB(object):
                                 self.viol.append(('result-of-another-request', 'attempt() of %s got a result for %r' % (r['sender'], rcpt)))
                     elif kind == 'raised' and not isinstance(val, RelayError):
                         self.viol.append(('non-relay-exception', 'attempt() of %s raised %r' % (r['sender'], val)))
+                    elif kind == 'raised':
+                        msg = str(getattr(val, 'reply', ''))
+                        if ' for ' in msg and (' for ' + r['sender']) not in msg:
+                            self.viol.append(('result-of-another-request', 'attempt() of %s failed with a reply given to another transaction: %s' % (r['sender'], msg)))
+                    if not cfg.get('faults'):
+                        # no fault anywhere: the only acceptable result is delivery of every recipient
+                        per, _ = classify(r['outcome'], r['env'])
+                        bad = sorted(rc for rc in r['env'].recipients if per.get(rc) != 'delivered')
+                        if bad:
+                            self.viol.append(('fault-free-attempt-failed', 'no fault was injected, yet attempt() of %s reports %r for %r'
+                                              % (r['sender'], r['outcome'][0] if kind == 'raised' else 'failure', bad)))
                     # delivered only if some peer accepted it
                     if kind == 'returned':
                         acc = set()
@@ -391,6 +408,9 @@ def configs(tier, seed):
                 cfgs.append({'layer': 'B', 'callers': callers, 'pool_size': ps, 'idle_timeout': it, 'faults': True, 'delays': callers == 2,
                              'd': 1 if q else 2, 'dd': 2})
                 cfgs.append({'layer': 'B', 'callers': callers, 'pool_size': ps, 'idle_timeout': it, 'faults': False, 'd': 2 if q else 3, 'dd': 0})
+                if callers == 2 or ps == 1:
+                    cfgs.append({'layer': 'B', 'lmtp': True, 'callers': callers, 'pool_size': ps, 'idle_timeout': it, 'faults': False, 'd': 1 if q else 2, 'dd': 0})
+                    cfgs.append({'layer': 'B', 'lmtp': True, 'callers': callers, 'pool_size': ps, 'idle_timeout': it, 'faults': True, 'd': 0 if q else 1, 'dd': 2})
                 cfgs.append({'layer': 'H', 'callers': callers, 'pool_size': ps, 'idle_timeout': it, 'faults': True, 'delays': callers == 2, 'd': 1 if q else 2, 'dd': 2})
     return cfgs
 
